@@ -27,6 +27,12 @@ Definition model_agree17 (c : c17case) : N :=
     if negb (list_eqb nl_eqb msent sent) then 14%N else if negb (ob_eqb mres result) then 15%N else 0%N
   end.
 
+Definition is_enq (c : list N) : bool := nl_eqb c [secsi_ENQ].
+Definition started_after_eot (sent : list (list N)) (answers : list N) : bool :=
+  forallb (fun i => is_enq (nth i sent []) ||
+                    match i with O => false | S j => is_enq (nth j sent []) && (j <? length answers)%nat && (nth j answers 0 =? secsi_EOT) end)
+          (seq 0 (length sent)).
+
 (* the statement on the observation: a stream of valid announced blocks -> per block EOT and ACK, each delivered once;
    one corrupted block -> EOT NAK and nothing delivered; the sender reports success exactly when all blocks were acknowledged *)
 Definition spec_holds17 (c : c17case) : N :=
@@ -38,10 +44,15 @@ Definition spec_holds17 (c : c17case) : N :=
     (* 39: not answered with exactly EOT NAK (known finding C17-length-byte: no T1/T2 timers, no resynchronisation); 40: delivered *)
     if negb (delivered =? 0)%nat then 40%N else if nl_eqb line [secsi_EOT; secsi_NAK] then 0%N else 39%N
   | LSend blocks answers sent result =>
-    let acked := forallb (fun i => nth (2 * i + 1) answers 0 =? secsi_ACK) (seq 0 (length blocks)) && (2 * length blocks <=? length answers)%nat in
+    (* the line is a strict alternation: every chunk the sender puts on it (ENQ or a block) is followed by one byte of the peer, so
+       chunk i+1 was sent after answer i.  38: a block that was not announced by ENQ or was started although the answer to that ENQ
+       was not EOT *)
+    if negb (started_after_eot sent answers) then 38%N else
+    let blk_idx := filter (fun i => negb (is_enq (nth i sent []))) (seq 0 (length sent)) in
+    let all_acked := forallb (fun i => (i <? length answers)%nat && (nth i answers 0 =? secsi_ACK)) blk_idx in
     match result with
-    | Some true => if acked && list_eqb nl_eqb sent (flat_map (fun b => [[secsi_ENQ]; b]) blocks) then 0%N else 33%N
-    | Some false => if acked then 34%N else 0%N
+    | Some true => if all_acked && list_eqb nl_eqb (map (fun i => nth i sent []) blk_idx) blocks then 0%N else 33%N
+    | Some false => if all_acked && (length blk_idx =? length blocks)%nat then 34%N else 0%N
     | None => 1%N
     end
   end.
